@@ -657,6 +657,55 @@ pub fn run_clone<T: Case + Clone, W: Write>(out: &mut Out<W>, dom: &[i8]) {
     }
 }
 
+// ---------------------------------------------------------------- Deref / DerefMut (C09)
+
+/// addresses of the storage of every field of the current variant (for a reference-typed field: of its referent)
+pub trait Addrs {
+    fn addrs(&self) -> Vec<usize>;
+}
+
+pub fn addr_of_p(p: &P) -> usize {
+    p as *const P as usize
+}
+
+fn index_of(addrs: &[usize], a: usize) -> usize {
+    addrs.iter().position(|x| *x == a).map(|i| i + 1).unwrap_or(0)
+}
+
+pub fn run_deref<T: Case + Addrs + std::ops::Deref<Target = P>, W: Write>(out: &mut Out<W>, dom: &[i8]) {
+    for a in all_values::<T>(dom).iter() {
+        let x = T::make(0, a.v, &a.f);
+        let addrs = x.addrs();
+        match guarded(|| addr_of_p(&*x)) {
+            Ok(d) => out.rec(&format!(
+                "\"ev\":\"op\",\"t\":{},\"op\":\"deref\",\"a\":{},\"di\":{},\"dmi\":0,\"after\":[]",
+                T::ID, a.json(), index_of(&addrs, d)
+            )),
+            Err(_) => out.rec(&format!("\"ev\":\"op\",\"t\":{},\"op\":\"panic\",\"in\":\"deref\",\"a\":{}", T::ID, a.json())),
+        }
+    }
+}
+
+pub fn run_deref_mut<T: Case + Addrs + std::ops::DerefMut<Target = P>, W: Write>(out: &mut Out<W>, dom: &[i8]) {
+    for a in all_values::<T>(dom).iter() {
+        let mut x = T::make(0, a.v, &a.f);
+        let addrs = x.addrs();
+        let r = guarded(|| {
+            let d = addr_of_p(&*x);
+            let dm = &mut *x as *mut P as usize;
+            *x = P::new(2, 9, 5);
+            (d, dm)
+        });
+        match r {
+            Ok((d, dm)) => out.rec(&format!(
+                "\"ev\":\"op\",\"t\":{},\"op\":\"deref\",\"a\":{},\"di\":{},\"dmi\":{},\"after\":{}",
+                T::ID, a.json(), index_of(&addrs, d), index_of(&addrs, dm), x.finger()
+            )),
+            Err(_) => out.rec(&format!("\"ev\":\"op\",\"t\":{},\"op\":\"panic\",\"in\":\"deref_mut\",\"a\":{}", T::ID, a.json())),
+        }
+    }
+}
+
 // ---------------------------------------------------------------- layout matrix (C04)
 
 /// A value with neighbour bytes: the value sits at offset 0 of a `#[repr(C)]` pair whose second member is
